@@ -8,65 +8,6 @@ func init() {
 	vfHarnesses["VerifH_params"] = VerifH_params
 }
 
-const refB64URL = "ABCDEFGHIJKLMNOPQRSTUVWXYZabcdefghijklmnopqrstuvwxyz0123456789-_"
-
-func refB64Val(c byte, urlAlphabet bool) int {
-	switch {
-	case c >= 'A' && c <= 'Z':
-		return int(c - 'A')
-	case c >= 'a' && c <= 'z':
-		return int(c-'a') + 26
-	case c >= '0' && c <= '9':
-		return int(c-'0') + 52
-	case !urlAlphabet && c == '+', urlAlphabet && c == '-':
-		return 62
-	case !urlAlphabet && c == '/', urlAlphabet && c == '_':
-		return 63
-	}
-	return -1
-}
-
-// refProtoJSONBytes: the proto3-JSON rule for bytes in text form: URL alphabet iff the text
-// contains '-' or '_', otherwise standard; padding expected iff len%4 == 0.
-func refProtoJSONBytes(s string) ([]byte, bool) {
-	urlAlpha := false
-	for i := 0; i < len(s); i++ {
-		if s[i] == '-' || s[i] == '_' {
-			urlAlpha = true
-		}
-	}
-	body := s
-	if len(s)%4 == 0 {
-		// padded form: strip up to two '='
-		for k := 0; k < 2 && len(body) > 0 && body[len(body)-1] == '='; k++ {
-			body = body[:len(body)-1]
-		}
-	}
-	if len(body)%4 == 1 {
-		return nil, false
-	}
-	var out []byte
-	var acc uint32
-	bits := 0
-	for i := 0; i < len(body); i++ {
-		v := refB64Val(body[i], urlAlpha)
-		if v < 0 {
-			return nil, false
-		}
-		acc = acc<<6 | uint32(v)
-		bits += 6
-		if bits >= 8 {
-			bits -= 8
-			out = append(out, byte(acc>>uint(bits)))
-			acc &= 1<<uint(bits) - 1
-		}
-	}
-	if acc != 0 {
-		return nil, false // non-zero trailing bits: strict decoders reject; larking may accept (unspecified)
-	}
-	return out, true
-}
-
 // VerifH_params (C03, C09): query parameters are resolved (proto or JSON name, dotted paths),
 // converted per field kind and applied: strings verbatim, bytes as base64, enums by name or
 // number, repeated keys appended in order, nested keys creating the nested message; unknown keys
@@ -267,16 +208,6 @@ func VerifH_params() {
 			vfCover("int32-rejected")
 		}
 	}
-}
-
-func refTrimJSONSpace(s string) string {
-	for len(s) > 0 && (s[0] == ' ' || s[0] == '\t' || s[0] == '\n' || s[0] == '\r') {
-		s = s[1:]
-	}
-	for len(s) > 0 && (s[len(s)-1] == ' ' || s[len(s)-1] == '\t' || s[len(s)-1] == '\n' || s[len(s)-1] == '\r') {
-		s = s[:len(s)-1]
-	}
-	return s
 }
 
 // vfBoundaryInts: integer texts around the limits of the 32- and 64-bit types.
